@@ -30,6 +30,9 @@ pub struct ChainTracker {
     last_state: Array1<f32>,
     mean: Array1<f32>,    // n_params
     mean_sq: Array1<f32>, // n_params
+    /// First state fed: the moments are accumulated on `x - origin`, so that the f32 running
+    /// mean keeps its digits for parameters that are large compared with their spread.
+    origin: Array1<f32>, // n_params
 }
 
 /// Statistics of an MCMC chain.
@@ -76,6 +79,7 @@ impl ChainTracker {
             last_state,
             mean,
             mean_sq,
+            origin: Array1::<f32>::zeros(n_params),
         }
     }
 
@@ -96,12 +100,18 @@ impl ChainTracker {
         let x_arr =
             ndarray::ArrayView1::<T>::from_shape(self.n_params, x)?.mapv(|x| x.to_f32().unwrap());
 
-        // Welford's update: `mean_sq` holds the sum of squared deviations from the running mean.
+        // Welford's update on `x - origin`: `mean` is the running mean of the shifted values and
+        // `mean_sq` the sum of squared deviations from it.
         // (Accumulating the mean of x^2 and subtracting mean^2 cancels catastrophically in f32
-        // as soon as the values are large compared with their spread.)
-        let delta = x_arr.clone() - self.mean.clone();
+        // as soon as the values are large compared with their spread, and a running mean of the
+        // raw values stalls once `delta / n` drops below the spacing of f32 numbers there.)
+        if self.n == 1 {
+            self.origin = x_arr.clone();
+        }
+        let shifted = x_arr.clone() - self.origin.clone();
+        let delta = shifted.clone() - self.mean.clone();
         self.mean = self.mean.clone() + delta.clone() / n;
-        self.mean_sq = self.mean_sq.clone() + delta * (x_arr.clone() - self.mean.clone());
+        self.mean_sq = self.mean_sq.clone() + delta * (shifted - self.mean.clone());
 
         //  x_1 = (1 - a) x_0 + a x_1
         // <=> x_1 (1 - a) = (1 - a) x_0
@@ -134,7 +144,7 @@ impl ChainTracker {
         ChainStats {
             n: self.n,
             p_accept: self.p_accept,
-            mean: self.mean.clone(),
+            mean: self.mean.clone() + self.origin.clone(),
             sm2: self.mean_sq.clone() / (n - 1.0),
         }
     }
@@ -192,6 +202,8 @@ pub struct MultiChainTracker {
     last_state: Array2<f32>,
     mean: Array2<f32>,    // n_chains x n_params
     mean_sq: Array2<f32>, // n_chains x n_params
+    /// First state of the first chain: all chains accumulate their moments on `x - origin`.
+    origin: Array1<f32>, // n_params
     n_chains: usize,
     n_params: usize,
 }
@@ -213,6 +225,7 @@ impl MultiChainTracker {
             last_state: Array2::<f32>::zeros((n_chains, n_params)),
             mean: Array2::<f32>::zeros((n_chains, n_params)),
             mean_sq,
+            origin: Array1::<f32>::zeros(n_params),
             n_chains,
             n_params,
         }
@@ -239,10 +252,15 @@ impl MultiChainTracker {
         let x_arr = ndarray::ArrayView2::<T>::from_shape((self.n_chains, self.n_params), x)?
             .mapv(|x| x.to_f32().unwrap());
 
-        // Welford's update (see `ChainTracker::step`): `mean_sq` is the sum of squared deviations.
-        let delta = x_arr.clone() - self.mean.clone();
+        // Welford's update on `x - origin` (see `ChainTracker::step`); one common origin, so that
+        // the chain means stay comparable: R-hat only needs their differences.
+        if self.n == 1 {
+            self.origin = x_arr.row(0).to_owned();
+        }
+        let shifted = x_arr.clone() - self.origin.clone().insert_axis(Axis(0));
+        let delta = shifted.clone() - self.mean.clone();
         self.mean = self.mean.clone() + delta.clone() / n;
-        self.mean_sq = self.mean_sq.clone() + delta * (x_arr.clone() - self.mean.clone());
+        self.mean_sq = self.mean_sq.clone() + delta * (shifted - self.mean.clone());
 
         // Update self.p_accept and last state
         self.p_accept = ndarray::Zip::from(x_arr.rows())
